@@ -354,3 +354,7 @@ pub mod attr_probe;
 // C09: file transfer objects (group 70): object writers, the master's file request builders, parser
 #[path = "file70_probe.rs"]
 pub mod file70_probe;
+
+// C20: master-side measurement path through the binding layer (engine ffimeas): three native constructors
+#[path = "ffimeas_probe.rs"]
+pub mod ffimeas_probe;
